@@ -1,5 +1,6 @@
 import VerifModel.Base.Proto
 import VerifModel.Model.Contingency
+import VerifModel.Model.ContingencyF
 import VerifModel.Spec.Cont
 import VerifModel.Driver.Cmp
 /- Driver ops for the contingency metrics (C06). -/
@@ -50,6 +51,19 @@ def handle (args : List String) : Option String :=
       let I := intervalOf b (← parseXR? t) (← parseXR? u)
       let (obs, fcst) := (← parseVec? obs, ← parseVec? fcst)
       some (showOpt (contScore floatTr name I I obs fcst))
+  -- the same with a forecast interval of its own (`f_interval`): bin type, threshold, upper threshold of the forecasts
+  | ["abcd", b, t, u, obs, fcst, fb, ft, fu] => do
+      let I := intervalOf (← BinType.ofName? b) (← parseXR? t) (← parseXR? u)
+      let J := intervalOf (← BinType.ofName? fb) (← parseXR? ft) (← parseXR? fu)
+      let (obs, fcst) := (← parseVec? obs, ← parseVec? fcst)
+      some (match abcdF I (some J) obs fcst with
+            | none => "none"
+            | some t => s!"{t.a} {t.b} {t.c} {t.d}")
+  | ["contscore", name, b, t, u, obs, fcst, fb, ft, fu] => do
+      let I := intervalOf (← BinType.ofName? b) (← parseXR? t) (← parseXR? u)
+      let J := intervalOf (← BinType.ofName? fb) (← parseXR? ft) (← parseXR? fu)
+      let (obs, fcst) := (← parseVec? obs, ← parseVec? fcst)
+      some (showOpt (contScoreF floatTr name I (some J) obs fcst))
   -- several scores one after the other on the same data (name, bin type, threshold, upper threshold, …): a score is a
   -- function of the data and the event alone
   | "contseq" :: obs :: fcst :: rest => do
